@@ -86,7 +86,8 @@ ROUTES = {0: "setkey", 1: "cb sets key+alg", 2: "cb sets key only", 3: "setkey(n
           5: "setkey, then refused setkey(alg, no key)", 6: "setkey, then refused setkey(mismatch)", 7: "setkey(HS512, oct:64), then the cell's setkey",
           8: "setkey(none, oct:64 with alg HS512), then cb replaces key+alg",
           9: "cb supplies the key with its natural alg once (warm-up), then with the cell's alg",
-          10: "setkey, cb selects (HS512, oct:64) for the first token only, later tokens judged under the setkey pin"}
+          10: "setkey, cb selects (HS512, oct:64) for the first token only, later tokens judged under the setkey pin",
+          11: "setkey(none, oct:64 with alg HS512), then cb replaces the key only"}
 SIGS = {0: "empty", 1: "garbage", 2: "valid-by-config-key", 3: "hmac-empty-key", 4: "hmac-public-pem", 5: "hmac-zero-key",
         6: "two-segments-only", 7: "empty-third-plus-fourth-segment", 8: "valid-plus-trailing-dot", 9: "padding-only"}
 
